@@ -138,6 +138,9 @@ class DataDir(object):
                 path.unlink()
 
     def delete_files(self, filenames):
+        # the names are iterated twice (check, then delete): a generator
+        # would be exhausted by the check and nothing would be deleted
+        filenames = list(filenames)
         for filename in filenames:
             self._check_writeprotected(filename=filename, accessmode='w')
         return self._delete_files(filenames=filenames)
